@@ -136,7 +136,11 @@ func judgePlus(c *Ctx, a, b string, r *gen.Rand) {
 	}
 	want := gen.CmpVersion(vb, va) >= 0
 	ap := plusSpell(u, a, r)
+	// the key names the unordered pair: '+' reach between two ids is one fact, whichever side carries the '+'
 	key := "plus:" + a + "~" + b
+	if b < a {
+		key = "plus:" + b + "~" + a
+	}
 	cs := C11Case{Kind: "plus", A: a, B: b}
 	bPlain := b
 	if strings.HasSuffix(b, "-or-later") {
@@ -153,6 +157,43 @@ func judgePlus(c *Ctx, a, b string, r *gen.Rand) {
 	}
 	if !r2.Clean() || r2.OK != want {
 		c.Violation(key, "C11.plus", cs, "Satisfies(%q,[%q])=%s; version %s %s %s so '+' should give %v", ap, bPlain, r2, vb, map[bool]string{true: ">=", false: "<"}[want], va, want)
+		return
+	}
+	// the same reach in richer contexts: next to the plain entry of the same id (either order), with a common exception on
+	// both sides, inside compound expressions, and with '+' on both sides (same family => always a match)
+	exc := "Classpath-exception-2.0"
+	if len(u.Exceptions) > 0 {
+		exc = u.Exceptions[(len(a)+len(b))%len(u.Exceptions)]
+	}
+	type ctx struct {
+		expr    string
+		allowed []string
+		want    bool
+	}
+	ctxs := []ctx{
+		{bPlain, []string{a, ap}, want || a == b},
+		{bPlain, []string{ap, a}, want || a == b},
+		{bPlain + " WITH " + exc, []string{ap + " WITH " + exc}, want},
+		{bPlain + " WITH " + exc, []string{ap}, false},
+		{"MIT AND " + bPlain, []string{"MIT", ap}, want},
+		{"(ISC OR " + bPlain + ") AND MIT", []string{ap, "MIT"}, want},
+		{bPlain, []string{"MIT", "ISC", ap, "Zlib"}, want},
+	}
+	if u.SpellOK(b, gen.SpPlus) {
+		ctxs = append(ctxs, ctx{b + "+", []string{ap}, true}, ctx{ap, []string{b + "+"}, true})
+	}
+	if a != b && strings.HasSuffix(a, "-or-later") == false && u.SpellOK(a, gen.SpPlus) {
+		// the plain entry of the '+' id must not widen the reach: X1 alone matches only its own step
+		sameStep := gen.CmpVersion(va, vb) == 0
+		ctxs = append(ctxs, ctx{bPlain, []string{a}, sameStep})
+	}
+	for _, x := range ctxs {
+		got := c.Sat(x.expr, x.allowed)
+		c.Inc("plus_context_checks")
+		if !got.Clean() || got.OK != x.want {
+			c.Violation(key, "C11.plus", cs, "Satisfies(%q,%q)=%s; with version %s vs %s the table's '+' reach requires %v", x.expr, x.allowed, got, vb, va, x.want)
+			return
+		}
 	}
 }
 
@@ -226,6 +267,7 @@ func runC11(c *Ctx, phase string) {
 	c.Floor("families_with_plus_pairs", int64(len(u.Ranges)))
 	c.Floor("plus_expected_true", 500)
 	c.Floor("plus_expected_false", 300)
+	c.Floor("plus_context_checks", 3000)
 	c.Floor("cross_family_checks", 5000)
 	c.Floor("table_entries", int64(len(u.Pos)))
 
